@@ -41,6 +41,12 @@ def judge(case, part):
     outcome, cid, detail = load(case["rows"])
     part.outcome(outcome)
     what = case["what"].split("@")[0].split(":")[0]
+    # the same contents loaded once more in this process: verdict and definition are a function of the contents
+    again, cid_again, detail_again = load(case["rows"])
+    part.transitions += 1
+    if again != outcome or (cid is not None and signature(cid) != signature(cid_again)):
+        part.fail("loaded-again|%s|%s-then-%s" % (what, outcome, again), case, [outcome, detail], [again, detail_again])
+        return
     if case["expect"] == "accept":
         if outcome != "accepted":
             part.fail("valid-cid|%s|%s" % (what, outcome), case, "accepted", detail)
